@@ -165,6 +165,29 @@ func compressionCases(g *goLayouts, fd *ast.FuncDecl) map[string]bool {
 	return out
 }
 
+// compressionCasesDeep: compressionCases of fd and of the package functions it calls (the decoder selection may live in
+// a helper).
+func compressionCasesDeep(g *goLayouts, fd *ast.FuncDecl, depth int, seen map[*ast.FuncDecl]bool) map[string]bool {
+	out := compressionCases(g, fd)
+	seen[fd] = true
+	if depth <= 0 {
+		return out
+	}
+	ast.Inspect(fd.Body, func(n ast.Node) bool {
+		if ce, ok := n.(*ast.CallExpr); ok {
+			if fn := g.calleeOf(ce); fn != nil {
+				if d := g.decls[fn]; d != nil && d.Body != nil && !seen[d] {
+					for k := range compressionCasesDeep(g, d, depth-1, seen) {
+						out[k] = true
+					}
+				}
+			}
+		}
+		return true
+	})
+	return out
+}
+
 func checkC12(p *Program, r *Result) {
 	r.Explanation = "Structural necessary conditions of 'readers return the same content for every legal layout of it': " +
 		"(C12.a) the handlers of the single-pass summary interpretation commute: no arm of the token switch (other than the terminal Footer arm, which the lexer guarantees to be last) reads or " +
@@ -236,7 +259,7 @@ func checkC12(p *Program, r *Result) {
 	if lfd == nil || ifd == nil {
 		r.undecided("C12.b", "mcap.loadChunk", "anchors", "", "one of the loadChunk functions not found")
 	} else {
-		a, b := compressionCases(g, lfd), compressionCases(g, ifd)
+		a, b := compressionCasesDeep(g, lfd, 3, map[*ast.FuncDecl]bool{}), compressionCasesDeep(g, ifd, 3, map[*ast.FuncDecl]bool{})
 		var onlyA, onlyB []string
 		for k := range a {
 			if !b[k] {
